@@ -37,7 +37,7 @@ class FnContract:
     def __init__(self, key, file=None, qual=None, params=None, free=None, returns='any', is_async=False, suspends=None,
                  requires=(), ensures=(), raises=(), modifies=(), ghost_modifies=(), loops=None, callsites=None,
                  locals=None, cancellable=None, interference=None, assume_asserts=(), trusted=False, pure=False,
-                 self_cls=None, notes='', path_budget=4000, spec_term=None, exits_ensure=(), varkw=None, allocates=True, cancel_must_propagate=False, exit_hook=None, ctx_modifies=(), raises_tags=(), wf_fields=(), ignore_callee_raises=None):
+                 self_cls=None, notes='', path_budget=4000, spec_term=None, exits_ensure=(), varkw=None, allocates=True, cancel_must_propagate=False, exit_hook=None, ctx_modifies=(), raises_tags=(), wf_fields=(), ignore_callee_raises=None, assumes=()):
         self.key = key
         self.file = file
         self.qual = qual
@@ -67,6 +67,7 @@ class FnContract:
         self.cancel_must_propagate = cancel_must_propagate
         self.exit_hook = exit_hook
         self.ignore_callee_raises = ignore_callee_raises or {}   # callee key -> labels of its caller-only (over-approximate) raises clauses not explored here
+        self.assumes = [Clause.of(c) for c in assumes]   # global assumptions (trusted base) used by the body proof; not a caller obligation
         self.wf_fields = tuple(wf_fields)   # dict-valued fields whose insertion-order representation invariant is assumed on every read
         self.raises_tags = tuple(raises_tags)   # property tags of the `only declared exceptions escape` obligation
         self.ctx_modifies = list(ctx_modifies)   # context variables (keys) of the current task the function may leave changed
